@@ -107,9 +107,10 @@ PROPS.update({
     },
     "C20": {
         "level": "exploration",
+        "real_binary_watch": True,
         "parts": [{"engine": "watch", "profile": "c20", "weight": 1}],
         "rule": "worlds: a real temporary tree (<=4 directories on 3 levels, <=10 files), 1..3 include and 0..2 exclude patterns from the grammar (literal, *, ?, ** as a whole segment), a subset of the five event names (or none = all), built by the real watch.NewWatcher; a history of 1..4 (thorough 6) injected fsnotify events (create/write/remove/rename/chmod, also combined and zero ops as noise) on observed paths or children of observed directories, a quarter of them arriving while the previously triggered run is still executing; fake 1 s poll. a third of the worlds give the task a timeout that some runs exceed (a failed run like any other). Oracles: selected path set == reference matcher (set-up invariant, pure part); number of watches the real inotify instance behind the watcher holds (read from /proc/self/fdinfo) == number of selected paths, and it does not grow when a create event arrives for an unselected file of an observed directory; per event: the task ran exactly once more with EventName/EventPath of that event iff its type is subscribed; every event is taken from the channel (keeps serving); initial run once; in a third of the runs a second watcher (same patterns, own task) is started on the same TaskRunner after the first was closed: it runs its task once and serves a subscribed event. distinct = canonical event-log hash; non-trivial = world with >=1 observed path and >=1 event",
-        "assumptions": ["event delivery by inotify and fsnotify's reader are not exercised: events are injected into the channel the watcher polls; registration with the kernel IS observed (real inotify_add_watch calls, counted through /proc/self/fdinfo)", "events are only injected for observed paths (the kernel would not deliver others)", "combined / zero ops are injected but not constrained (the statement does not say which type they are)", "sampling, not proof"],
+        "assumptions": ["event delivery by inotify and fsnotify's reader are not exercised: events are injected into the channel the watcher polls; registration with the kernel IS observed (real inotify_add_watch calls, counted through /proc/self/fdinfo)", "events are only injected for observed paths (the kernel would not deliver others)", "combined / zero ops are injected but not constrained (the statement does not say which type they are)", "the `watch` command line (several watchers named at once) is outside the simulation: probed once per check with the real binary and real inotify (real_binary_watch_probe in the evidence)", "sampling, not proof"],
     },
     "C14": {
         "level": "exploration",
